@@ -14,6 +14,12 @@ def run_sub(res, sub, tier, extra_args=(), timeout=None, env=None):
     t0 = time.time()
     p = subprocess.Popen(cmd, stdout=subprocess.PIPE, stderr=subprocess.PIPE, env=env)
     summary = None
+    # hard wall-clock cap (the enumerator has its own stall watchdog; this is the backstop)
+    import threading
+    cap = timeout or (1800 if tier == "quick" else 6 * 3600)
+    killer = threading.Timer(cap, p.kill)
+    killer.daemon = True
+    killer.start()
     try:
         for line in p.stdout:
             line = line.strip()
@@ -30,8 +36,9 @@ def run_sub(res, sub, tier, extra_args=(), timeout=None, env=None):
                 summary = r
             elif k == "progress":
                 common.log("[%s] %s" % (sub, r.get("msg")))
-        p.wait(timeout=timeout)
+        p.wait(timeout=60)
     finally:
+        killer.cancel()
         if p.poll() is None:
             p.kill()
     err = p.stderr.read().decode("utf-8", "replace")
